@@ -329,3 +329,31 @@ def rule_formula_per_sheet(ctx):
                'unqualified references take the sheet of the formula, $ is dropped, and nothing is carried over from a formula built '
                'earlier from the same text (extract(), build_ranges and the dependency terms follow these)')
     return 1
+
+
+# --------------------------------------------------------------------------------------------------------------
+# L5: what a constant cell evaluates to
+# --------------------------------------------------------------------------------------------------------------
+def rule_constant_cells(ctx):
+    """Evaluator.evaluate on cells without a formula: the stored native value becomes the value class of ITS kind -
+    None a blank, "" a text (the empty text is not a blank: 5 < "" is TRUE, 5 < blank is FALSE), 0 a number, FALSE a boolean."""
+    em = ctx.mod('evaluator')
+    ev = em.func('Evaluator.evaluate')
+    XLT = 'pkg:xlfunctions.func_xltypes:'
+    cases = [(None, 'Blank', None), ('', 'Text', ''), ('abc', 'Text', 'abc'), (0, 'Number', 0), (2.5, 'Number', 2.5), (False, 'Boolean', False),
+             (True, 'Boolean', True), ('0', 'Text', '0')]
+    world = World()
+    for stored, wcls, wval in cases:
+        cell = Rec(cls='pkg:xltypes:XLCell', address='S!A1', value=stored, formula=None, need_update=False, defined_names=[])
+        model = Rec(cls='pkg:model:Model', cells={'S!A1': cell}, defined_names={}, ranges={}, formulae={})
+        evaluator = Rec(cls='pkg:evaluator:Evaluator', model=model, namespace={}, cache_count=0, _eval_stack=[])
+        it = Interp(ctx.a, em, {'e': evaluator}, inline_pkg=True, world=world)
+        out = it.run([ast.parse("return e.evaluate('S!A1')").body[0]])
+        if out.end == 'return' and isinstance(out.value, Rec) and isinstance(out.value.f.get('cls'), str):
+            got = (out.value.f['cls'].rpartition(':')[2], out.value.f.get('value'))
+        else:
+            got = (f'<{out.end}>', out.value)
+        ctx.expect(got == (wcls, wval) and type(got[1]) is type(wval), ev, f'constant cell holding {stored!r} evaluates to {wcls}',
+                   f'a cell without formula that stores {stored!r} evaluates to {got[0]} {got[1]!r}, expected {wcls} {wval!r}: the empty text is a '
+                   'text (it sorts after every number: 5<"" is TRUE), only a cell without content is a blank')
+    return len(cases)
